@@ -80,6 +80,22 @@ Pad4(k) == IF k < 10 THEN "000" \o ToString(k) ELSE IF k < 100 THEN "00" \o ToSt
 Display(dt, t) == Pad4(dt[1]) \o "-" \o Pad2(dt[2]) \o "-" \o Pad2(dt[3]) \o " " \o
                   Pad2(t[1]) \o ":" \o Pad2(t[2]) \o ":" \o Pad2(t[3])
 
+(* Display under other date formats.  A cell shows the calendar date of its serial whatever the  *)
+(* time of day: units a format does not show (seconds; for a date-only format the whole time)    *)
+(* are dropped, never rounded into the units it does show.                                      *)
+MonthAbbr == <<"Jan", "Feb", "Mar", "Apr", "May", "Jun", "Jul", "Aug", "Sep", "Oct", "Nov", "Dec">>
+DisplayFormats == {"yyyy-mm-dd hh:mm:ss", "yyyy-mm-dd", "dd/mm/yyyy", "m/d/yyyy", "d-mmm-yy", "yyyy/mm/dd;@",
+                   "yyyy-mm-dd hh:mm"}
+DisplayAs(f, dt, t) ==
+  CASE f = "yyyy-mm-dd hh:mm:ss" -> Display(dt, t)
+    [] f = "yyyy-mm-dd"       -> Pad4(dt[1]) \o "-" \o Pad2(dt[2]) \o "-" \o Pad2(dt[3])
+    [] f = "dd/mm/yyyy"       -> Pad2(dt[3]) \o "/" \o Pad2(dt[2]) \o "/" \o Pad4(dt[1])
+    [] f = "m/d/yyyy"         -> ToString(dt[2]) \o "/" \o ToString(dt[3]) \o "/" \o Pad4(dt[1])
+    [] f = "d-mmm-yy"         -> ToString(dt[3]) \o "-" \o MonthAbbr[dt[2]] \o "-" \o Pad2(dt[1] % 100)
+    [] f = "yyyy/mm/dd;@"     -> Pad4(dt[1]) \o "/" \o Pad2(dt[2]) \o "/" \o Pad2(dt[3])   \* section for numbers
+    [] f = "yyyy-mm-dd hh:mm" -> Pad4(dt[1]) \o "-" \o Pad2(dt[2]) \o "-" \o Pad2(dt[3]) \o " " \o
+                                 Pad2(t[1]) \o ":" \o Pad2(t[2])
+
 ---------------------------------------------------------------------------
 (* Binary fractions.  A double x with 1 <= x < 2^31 is  n + F / 2^52  for integers n, F; F is   *)
 (* written with four digits base 2^13:  f = <<f3, f2, f1, f0>>,  F = f3*2^39+f2*2^26+f1*2^13+f0. *)
@@ -157,5 +173,15 @@ FracArith  == /\ clk.sod % 675 = 0 =>
               /\ ~FracIsSecond(<<4095, 8191, 0, 0>>, 43200)      /\ ~FracIsSecond(<<4096, 1, 0, 0>>, 43200)
               /\ DoubleLess(<<59, 0, 0, 0, 0>>, <<59, 0, 0, 0, 1>>) /\ DoubleLess(<<59, 8191, 0, 0, 0>>, <<61, 0, 0, 0, 0>>)
               /\ ~DoubleLess(<<61, 0, 0, 0, 0>>, <<61, 0, 0, 0, 0>>) /\ ~DoubleLess(<<61, 0, 1, 0, 0>>, <<61, 0, 0, 8191, 0>>)
+(* the renderings agree with each other on the components they share (examined on the days where *)
+(* the padding changes and at the month ends: string building is the costly part of this model) *)
+Displays   == clk.date[3] \in {1, 9, 10, 28, 29, 30, 31} =>
+              LET t == HMS(clk.sod)
+                  d == clk.date
+              IN  /\ DisplayAs("yyyy-mm-dd hh:mm", d, t) \o ":" \o Pad2(t[3]) = Display(d, t)
+                  /\ DisplayAs("yyyy-mm-dd", d, t) \o " " \o Pad2(t[1]) \o ":" \o Pad2(t[2])
+                        = DisplayAs("yyyy-mm-dd hh:mm", d, t)
+                  /\ DisplayAs("yyyy-mm-dd", d, t) = DisplayAs("yyyy-mm-dd", d, <<0, 0, 0>>)
+                  /\ \A f \in DisplayFormats : DisplayAs(f, d, t) # ""
 Monotone   == [][ExactLess(<<clk.serial, clk.sod>>, <<clk'.serial, clk'.sod>>)]_vars
 =============================================================================
